@@ -42,7 +42,8 @@ RULE = ("(a) exhaustive role table: 5 role proposals (absent,TT,TF,FT,FF) x 9 su
         "syntax) x 2 modes; (b) seeded lists of 0..128 contexts over 13 abstract syntaxes (duplicates), ordered "
         "subsets of 6 transfer syntaxes, supported contexts with all 9 role settings, role proposals incl. for "
         "unproposed SOP classes, both modes; every 4th seeded input and every table input also driven through "
-        "ACSE._negotiate_as_acceptor. distinct = SHA-1 of the canonical input (+path); non-trivial = >= 1 proposed "
+        "ACSE._negotiate_as_acceptor; (c) unrestricted-mode classification probe over 101 abstract syntaxes (71 known "
+        "non-storage SOP classes, 26 storage, private, unassigned). distinct = SHA-1 of the canonical input (+path); non-trivial = >= 1 proposed "
         "abstract syntax is supported (or storage-like in unrestricted mode) and >= 1 role proposal for a proposed "
         "abstract syntax")
 ASSUMPTIONS = [
@@ -88,7 +89,7 @@ def gen_cases(tier, seed):
     for b in range((len(tab) + per_t - 1) // per_t):
         cases.append({"seed": seed, "kind": "table", "block": b, "lo": b * per_t, "hi": min(len(tab), (b + 1) * per_t)})
     cases.append({"seed": seed, "kind": "classify", "block": 0})
-    n = 16000 if tier == "quick" else 400000
+    n = 16000 if tier == "quick" else 600000
     per = 250 if tier == "quick" else 5000
     for b in range(n // per):
         cases.append({"seed": seed, "kind": "random", "block": b, "count": per})
